@@ -630,6 +630,31 @@ pub fn run_c13(tier: Tier) -> i32 {
             break 'many;
         }
     }
+    // revivals of one key under a backlog of other keys' close notices
+    let mut revival_cases = 0u32;
+    'rev: for backlog in 0..=4u32 {
+        for revivals in 1..=4u32 {
+            for idle in [0u32, 1, 2, 8] {
+                revival_cases += 1;
+                let r = std::panic::catch_unwind(|| revival_backlog_case(backlog, revivals, idle));
+                let msg = match r {
+                    Ok(None) => continue,
+                    Ok(Some(m)) => m,
+                    Err(_) => format!("C13-panic|backlog {backlog}, {revivals} revivals, {idle} idle polls: panic: {}", crate::mock::take_panic()),
+                };
+                let (sig, text) = msg.split_once('|').map(|(a, b)| (a.to_string(), b.to_string())).unwrap_or(("C13-revival".into(), msg.clone()));
+                let dir = verif_dir().join("replays").join("C13");
+                let _ = std::fs::create_dir_all(&dir);
+                let path = dir.join(format!("{sig}-revival-{backlog}-{revivals}-{idle}.json"));
+                let doc = json!({"property": "C13", "harness": "limits_key/revival-backlog", "signature": sig, "message": text, "n": 1, "backlog": backlog, "revivals": revivals, "idle": idle, "history": []});
+                std::fs::write(&path, serde_json::to_string_pretty(&doc).unwrap()).unwrap();
+                println!("VIOLATION property=C13 replay={}", path.display());
+                eprintln!("  {sig}: {text}");
+                nviol += 1;
+                break 'rev;
+            }
+        }
+    }
     let ev = json!({
         "property_id": "C13", "tier": tier.name(), "seed": seed(), "level": "model_checking",
         "coverage": {
@@ -876,7 +901,83 @@ pub fn many_keys_case(keys: u32, survivors: u32) -> Option<String> {
     None
 }
 
+/// A key that empties and is revived several times while close notices of other keys are queued
+/// ahead of its own (limit 1): `backlog` other keys are admitted and all closed without a poll;
+/// then, `revivals` times, the key's channel is closed and a new connection of the key arrives
+/// and is polled in (it must be admitted: no channel of the key is alive); then `idle` polls with
+/// nothing waiting; then one more connection of the key arrives - it must be shed, the last one
+/// being alive; finally that one is closed and the next is admitted. None = held.
+pub fn revival_backlog_case(backlog: u32, revivals: u32, idle: u32) -> Option<String> {
+    use tarpc::server::incoming::Incoming;
+    use tarpc::server::Channel;
+    type BC = BaseChannel<u32, u32, IdleEnd>;
+    let q: Rc<RefCell<VecDeque<BC>>> = Rc::new(RefCell::new(VecDeque::new()));
+    let q2 = q.clone();
+    let listener = futures::stream::poll_fn(move |_| match q2.borrow_mut().pop_front() {
+        Some(c) => Poll::Ready(Some(c)),
+        None => Poll::Pending,
+    });
+    let mut filter = Box::pin(listener.max_channels_per_key(1, |c: &BC| c.transport().key));
+    let waker = futures::task::noop_waker();
+    let mut cx = Context::from_waker(&waker);
+    let tag = format!("limit 1; {backlog} other keys admitted and closed without a poll; then key 0 closed and re-admitted {revivals} times; {idle} idle polls");
+    let mut arrive = |k: u32| q.borrow_mut().push_back(BaseChannel::with_defaults(IdleEnd { key: k }));
+    arrive(0);
+    for k in 1..=backlog {
+        arrive(k);
+    }
+    let mut fillers = vec![];
+    let mut current = None;
+    for _ in 0..=backlog {
+        match filter.as_mut().poll_next(&mut cx) {
+            Poll::Ready(Some(c)) => {
+                if c.get_ref().transport().key == 0 {
+                    current = Some(c);
+                } else {
+                    fillers.push(c);
+                }
+            }
+            _ => return Some(format!("C13-shed-below-limit|{tag}: one of the first connections (distinct keys) was not admitted")),
+        }
+    }
+    drop(fillers);
+    for r in 0..revivals {
+        drop(current.take());
+        arrive(0);
+        match filter.as_mut().poll_next(&mut cx) {
+            Poll::Ready(Some(c)) if c.get_ref().transport().key == 0 => current = Some(c),
+            _ => return Some(format!("C13-shed-below-limit|{tag}: revival {} of key 0 was shed although no channel of key 0 was alive", r + 1)),
+        }
+    }
+    for _ in 0..idle {
+        if let Poll::Ready(_) = filter.as_mut().poll_next(&mut cx) {
+            return Some(format!("C13-ended|{tag}: the limited stream yielded or ended with nothing waiting"));
+        }
+    }
+    arrive(0);
+    if let Poll::Ready(Some(_second)) = filter.as_mut().poll_next(&mut cx) {
+        return Some(format!("C13-over-limit|{tag}: one more connection of key 0 was admitted while the last one is alive"));
+    }
+    drop(current.take());
+    arrive(0);
+    match filter.as_mut().poll_next(&mut cx) {
+        Poll::Ready(Some(_)) => None,
+        _ => Some(format!("C13-shed-below-limit|{tag}: after the last channel of key 0 was closed a new connection of key 0 was shed")),
+    }
+}
+
 pub fn replay_c13(doc: &serde_json::Value, path: &str) -> i32 {
+    if doc["harness"].as_str() == Some("limits_key/revival-backlog") {
+        let g = |k: &str| doc[k].as_u64().unwrap() as u32;
+        return match revival_backlog_case(g("backlog"), g("revivals"), g("idle")) {
+            None => 0,
+            Some(m) => {
+                println!("violated: {m}");
+                println!("VIOLATION property=C13 replay={path}");
+                1
+            }
+        };
+    }
     let n = doc["n"].as_u64().unwrap() as u32;
     if doc["harness"].as_str() == Some("limits_key/many-keys") {
         return match many_keys_case(doc["keys"].as_u64().unwrap() as u32, doc["survivors"].as_u64().unwrap() as u32) {
